@@ -50,6 +50,9 @@ def inline(fn: Func, e: ast.expr, depth: int = 0) -> ast.expr:
                     assigns.setdefault(x.id, []).extend([n.iter, n.iter])
 
     class T(ast.NodeTransformer):
+        def visit_Lambda(self, node: ast.Lambda) -> Any:  # noqa: N802
+            return node  # parameters of a lambda shadow locals: leave its body alone
+
         def visit_Name(self, node: ast.Name) -> Any:  # noqa: N802
             if (
                 isinstance(node.ctx, ast.Load)
